@@ -49,7 +49,7 @@ FUNCTIONS = [
 EXPLORER_OPTS = {"timeout_ms": 20000, "max_paths": 200000, "max_decisions": 400000}
 BUDGET_S = {"quick": 900, "thorough": 2300}
 TOL = 1e-9          # concrete-side tolerance for "coincident" coordinates (replay / encoding validation only)
-DELTA = 1e-9        # a reference point counts as inside a triangle when all three edge cross products exceed DELTA in magnitude
+DELTA = 1e-9        # a reference point counts as inside a triangle when all three barycentric coordinates exceed DELTA (scale-free)
 
 
 def PRE_INSTALL():
@@ -433,7 +433,10 @@ def strictly_inside(p, t):
     d1 = (x2 - x1) * (py - y1) - (y2 - y1) * (px - x1)
     d2 = (x3 - x2) * (py - y2) - (y3 - y2) * (px - x2)
     d3 = (x1 - x3) * (py - y3) - (y1 - y3) * (px - x3)
-    return _or(_and(d1 > DELTA, d2 > DELTA, d3 > DELTA), _and(d1 < -DELTA, d2 < -DELTA, d3 < -DELTA))
+    # scale-free margin: every barycentric coordinate d_i / D exceeds DELTA, D = d1 + d2 + d3 = twice the signed area (non-zero)
+    D = d1 + d2 + d3
+    m = D * DELTA
+    return _or(_and(D > 0, d1 > m, d2 > m, d3 > m), _and(D < 0, d1 < m, d2 < m, d3 < m))
 
 
 def _safe(f, *a, **kw):
@@ -842,6 +845,11 @@ def _containment(A, E, tag, T, P, shape, ref, target):
     E[tag + "containing_indices_valid"] = True
     A[tag + "containing_indices_is_where_mask"] = bool(idx == [i for i in range(n) if np.shape(mask) == (n,) and mask[i]])
     E[tag + "containing_indices_is_where_mask"] = True
+    # refinement step (two entry points): selecting the reported positions gives exactly the triangles at those positions
+    if idx:
+        A[tag + "for_indexes(containing_indices)_selects_reported_triangles"] = _safe(
+            lambda: _all_eq(T.for_indexes(np.array(idx, dtype=int)).triangles, np.array([[list(v) for v in P[i]] for i in idx], dtype=object)))
+        E[tag + "for_indexes(containing_indices)_selects_reported_triangles"] = True
     inside = strictly_inside(ref, P[target])
     A[tag + "reference_point_inside_implies_mask"] = _implies(inside, bool(mask[target]) if np.shape(mask) == (n,) else False)
     E[tag + "reference_point_inside_implies_mask"] = True
@@ -982,7 +990,12 @@ def _coord_sets(tier):
         for flipped in (False, True):
             for tri in itertools.permutations(win, 3):
                 sets.append(([list(c) for c in tri], flipped))
+    # a coordinate may be listed more than once (e.g. for_indexes with overlapping / repeated selections): positions must stay faithful
+    for flipped in (False, True):
+        for rep in ([[0, 0], [0, 0]], [[0, 0], [1, 0], [0, 0]], [[1, 0], [1, 0], [0, 1]]):
+            sets.append((rep, flipped))
     multi = [
+        [[0, 0], [1, 0], [2, 0], [1, 0], [3, 0], [4, 0]],                  # strip with a repeated entry
         [[0, 0], [1, 0], [2, 0], [0, 1], [1, 1], [2, 1]],                  # hexagon around a lattice vertex
         [[-2, 0], [-1, 0], [0, 0], [1, 0], [2, 0]],                       # strip
         [[0, 0], [0, 1], [0, -1], [3, 2], [-3, -2]],                      # column + far triangles
@@ -1050,7 +1063,14 @@ def cases(tier):
         plan = [("point", [S1, S2, S3, S4, S5, S6]), ("circle", [S1, S2, S3, S4, S5, S6]), ("square", [S1, S2, S3, S4, S5, S6]),
                 ("triangle@tri_small", [S1, S2, S3, S4, S6]), ("triangle@tri_large", [S1, S2, S4]), ("triangle@sliver", [S1, S2]),
                 ("polygon@quad_small", [S1, S2, S3]), ("polygon@quad_nonconvex", [S1, S2]), ("polygon@pent", [S1, S2])]
-    for kind, ss in plan:
+    # scale dimension (deep refinement levels / large fields): the clause is scale-free; repeated coordinates: positions stay faithful
+    T1, T2, T3 = ([[0, 0], [1, 0]], False, 2.0 ** -21), ([[1, 0]], True, 2.0 ** -34), ([[0, 0], [1, 0]], False, 2.0 ** 12)
+    R1, R2 = ([[0, 0], [1, 0], [0, 0], [2, 0]], False, 1.0), ([[1, 0], [0, 0], [1, 0], [2, 0], [3, 0]], True, 0.5)
+    extra = [("point", [T1, T2, T3, R1, R2]), ("circle", [T1, T2, T3, R1]), ("square", [T1, T2, R1]), ("triangle@tri_small", [T2]),
+             ("polygon@quad_small", [T2])]
+    if tier != "quick":
+        extra += [("circle", [R2]), ("square", [T3, R2]), ("triangle@tri_small", [T1, T3, R1]), ("triangle@tri_large", [T1, T2])]
+    for kind, ss in plan + extra:
         for coords, flipped, side in ss:
             out.append(("case_shape", {"coords": coords, "flipped": flipped, "side": side, "kind": kind}))
     # all shape vertices symbolic (non-linear barycentric tests); a symbolic 4-gon does not terminate (> 15 min without a first path)
@@ -1081,7 +1101,10 @@ BOUNDS = {
              "has been read (triangles, area, len, up_sample, neighborhood, for_indexes, containing_indices, iteration): with_vertices(symbolic W) "
              "on fully read lattice sets, their vertex arrays, the symbolic triangle, the (concrete, read) mesh and a read concrete triangle, "
              "followed by with_vertices(integer lattice). Integer-dtype vertex arrays (values ENUMERATED by the explorer, no real-valued variable): "
-             "one triangle with all six coordinates in [-1,1] (729 sets) and 16 larger odd-sum sets, two triangles sharing an edge (81 sets).",
+             "one triangle with all six coordinates in [-1,1] (729 sets) and 16 larger odd-sum sets, two triangles sharing an edge (81 sets). "
+             "Lattice sets with a coordinate listed more than once (2-6 entries) in the set and containment clauses; containment also at side "
+             "lengths 2^-21, 2^-34 and 2^12 (the inside test is scale-free: barycentric coordinates > 1e-9) and with the refinement step "
+             "for_indexes(containing_indices(shape)) == the triangles at the reported positions.",
     "thorough": "single coordinates in [-5,5]^2, ordered pairs from a 5x5 window, ordered triples from a 3x2 window, 7 larger sets (up to 15 triangles); two for_limits_and_scale ranges "
                 "(scale in [0.5, 2]); vertex arrays additionally two triangles sharing an edge with all 8 coordinates symbolic through the public methods "
                 "(4365 orderings), a second mesh, a 3-triangle strip at helper level; containment additionally a 5-gon and a sliver template, two more "
@@ -1097,7 +1120,7 @@ OUTSIDE = [
     "NaN-padded / JAX variants (jax_array.py, jax_coordinate_array.py; jax is not installed)",
     "containment for vertex-array triangles with more than one symbolic vertex, Square with symbolic vertex 1 or 2, Polygon with >= 4 symbolic vertices "
     "(non-linear rational barycentric tests: z3 does not terminate); the converse direction (reported => intersects) is not part of the property",
-    "reference points within 1e-9 (cross-product units) of a triangle edge; degenerate triangles in the containment clause (Point.mask divides by the "
+    "reference points whose barycentric coordinates are within 1e-9 of 0 (relative, scale-free); degenerate triangles in the containment clause (Point.mask divides by the "
     "doubled signed area)",
     "the order of triangles / vertices in the outputs (sets of triangles are compared as sets of vertex sets, counts separately)",
 ]
